@@ -94,6 +94,12 @@ def django_bases():
     B["select-related"] = (lambda: P.objects.select_related("author"), False)
     B["joined-filter"] = (lambda: P.objects.filter(author__age__gte=5), False)
     B["values-base"] = (lambda: P.objects.filter(author__isnull=False), False)
+    # managers that are NOT the model's default manager
+    B["custom-manager"] = (lambda: P.visible, False)
+    B["custom-manager-all"] = (lambda: P.visible.all(), False)
+    B["related-manager"] = (lambda: M.Author.objects.order_by("id").first().posts, False)
+    B["related-manager-all"] = (lambda: M.Author.objects.order_by("-id").first().posts.all(), False)
+    B["m2m-manager"] = (lambda: M.Tag.objects.order_by("id").first().posts, False)
     return B
 
 
@@ -145,7 +151,11 @@ def judge(ctx, graph, inst_name, kind, bname, base_fn, ordered, t, twice=False):
                     stmts = [x for x in log if x[0].lstrip().upper().startswith("SELECT")]
         else:
             from odata_query.django import apply_odata_query
-            base_ids = list(base_fn().values_list("id", flat=True))
+            try:
+                base_ids = list(base_fn().values_list("id", flat=True))
+            except AttributeError:
+                ctx.count("base_not_available")    # e.g. no author / tag in this instance
+                return
             with django_env.driver_trace() as log:
                 q = apply_odata_query(base_fn(), text)
                 if twice:
